@@ -100,8 +100,55 @@ def post_simple(ev, args, kwargs, ret, exc, pre_, depth):
     return {'obj': ob.oid(args[0])}
 
 
+def _have(s):
+    out = {}
+    for name in ('density', 'diameter', 'potential', 'closure', 'omega'):
+        try:
+            getattr(s, name).check()
+            out[name] = 1
+        except ValueError:
+            out[name] = 0
+    out['domain'] = 0 if s.domain is None else 1
+    out['kT'] = 1
+    return out
+
+
+def _sysprint(s):
+    from harness.props.c16_snapshot import fingerprint
+    return fingerprint(s)
+
+
+def pre_system(ev, args, kwargs):
+    s = args[0]
+    ob.HOLD += 1          # the nested table/density check() events of _have are not part of the execution
+    try:
+        return {'have': _have(s), 'print': _sysprint(s)}
+    finally:
+        ob.HOLD -= 1
+
+
+def post_system(ev, args, kwargs, ret, exc, pre_, depth):
+    s = args[0]
+    ob.HOLD += 1
+    try:
+        same = _sysprint(s) == pre_['print']
+    finally:
+        ob.HOLD -= 1
+    r = {'sys': ob.oid(s), 'obj': ob.oid(s), 'have': pre_['have'], 'untouched': 1 if same else 0, 'rank': int(s.rank)}
+    if ev != 'system.check' and ret is not None:
+        r['prism'] = ob.oid(ret)
+    return r
+
+
+def post_system_new(ev, args, kwargs, ret, exc, pre_, depth):
+    return None if exc is not None else {'sys': ob.oid(args[0]), 'obj': ob.oid(args[0]), 'rank': int(args[0].rank)}
+
+
 def register(pre, post):
+    for e in ('system.check', 'system.createPRISM', 'system.solve'):
+        pre[e] = pre_system
+        post[e] = post_system
+    post['system.new'] = post_system_new
     for fn in ('pair_correlation', 'structure_factor', 'pmf', 'second_virial', 'chi', 'spinodal_condition', 'solvation_potential'):
         post['calc.' + fn] = post_calc
     post['prism.solve'] = post_solve
-    post['system.solve'] = post_system_solve
